@@ -40,7 +40,7 @@ Inductive call := CIsRunning | CStop | CStart | CAddFn | CRemoveEntity.
 Inductive pc := AtChecked (c : call) | AtStopped (c : call).
 
 Inductive op :=
-| Setup (t : Z)                    (* NewEntityLocal(..., t ms): only as the first operation, t a multiple of 100 *)
+| Setup (t : Z)                    (* NewEntityLocal(..., t ms): only as the first operation, t >= 100 *)
 | Call (t : N) (c : call)
 | Resume (t : N)
 | Tick (g : N)
@@ -97,9 +97,12 @@ Record st := {
 
 Definition default_tmo : Z := 100.
 
-(* Timeouts are whole multiples of 100 ms: the announced timeout and the ticker are both derived from
-   the DurationType text, which keeps tenths of a second (C19: exact for multiples of 100 ms). *)
-Definition bad_tmo (t : Z) : bool := Z.ltb t 1 || negb (Z.eqb (t mod 100) 0).
+(* The configured timeout t (ms, at least 100) is kept as the DurationType text, which keeps tenths of a
+   second: the announced timeout is t truncated to a multiple of 100 ms, and StartHeartbeat derives the
+   ticker from that text too (GetTimeDuration), so 190 ms is announced and run as 100 ms, 2050 ms as 2 s
+   (which is not above the threshold). [tmo] below is the announced value. *)
+Definition announced (t : Z) : Z := t / 100 * 100.
+Definition bad_tmo (t : Z) : bool := Z.ltb t 100.
 
 Definition init : st :=
   {| conf := false; tmo := default_tmo; cur := None; closed := []; nextg := 0; streams := [];
@@ -302,7 +305,7 @@ Definition set_conf (s : st) (t : Z) : st :=
 Definition step (s : st) (o : op) : st * list obs :=
   match o with
   | Setup t =>
-      if conf s || bad_tmo t then (set_conf s (tmo s), [NotRunnable]) else (set_conf s t, [Ready])
+      if conf s || bad_tmo t then (set_conf s (tmo s), [NotRunnable]) else (set_conf s (announced t), [Ready])
   | _ =>
       let s := set_conf s (tmo s) in
       match o with
@@ -344,7 +347,7 @@ Definition step_pinned (ps : pst) (o : op) : pst * list obs :=
   match o with
   | Setup t =>
       if conf (p_s ps) || bad_tmo t then ({| p_s := s; p_thr := thr |}, [NotRunnable])
-      else ({| p_s := set_conf s t; p_thr := thr |}, [Ready])
+      else ({| p_s := set_conf s (announced t); p_thr := thr |}, [Ready])
   | Call t c =>
       match assoc_N t thr with
       | Some _ => ({| p_s := s; p_thr := thr |}, [Busy])
